@@ -264,6 +264,52 @@ def h_scalars():
     return h
 
 
+def h_is_empty():
+    """TestCaseConfig::is_empty decides whether a configuration is written at all (`create` / `--convert`, `defaults:` in front-matter)"""
+    from props.c16 import sym_tcc, SCALARS
+    from mir_models import to_symopt
+
+    def setup(ctx):
+        n = ctx.notes.get("env_n", 0)
+        cfg = sym_tcc(ctx, "c", ctx.notes["env_n"]) if False else None
+        return []
+
+    def mk(env_n):
+        def f(ctx):
+            cfg = sym_tcc(ctx, "c", env_n)
+            ctx.notes["cfg"] = cfg
+            return [new_ref(cfg)]
+        return f
+
+    def post(ctx, args, kind, value):
+        if kind != "return":
+            return False
+        cfg = ctx.notes["cfg"]
+        none_set = z3.And([z3.Not(to_symopt(field_of(cfg, k)).present.z()) for k in SCALARS])
+        want = z3.And(none_set, z3.BoolVal(len(field_of(cfg, "environment").entries) == 0))
+        return (value.z() if not value.concrete else z3.BoolVal(bool(value.v))) == want
+    h = e2.Harness("config_is_empty", "TestCaseConfig::is_empty", [("every subset of keys, %d variable(s)" % n, mk(n)) for n in (0, 1)], post,
+                   native="tcc_is_empty", judge=lambda a, k, v: (False, "", ""),
+                   describe="is_empty ⇔ no key is set and there is no variable: a configuration with any key set is written out",
+                   bound="every subset of the seven scalar keys (any values), 0 or 1 variables")
+    h.models_cls = YamlModels
+    return h
+
+
+def replay_is_empty(rep, h, res):
+    from props.c16 import tcc_to_json
+    for model, r in res.raw_witnesses[:4]:
+        w = tcc_to_json(r.ctx.notes["cfg"], model)
+        nk, nv = NAT.call("one_liner_roundtrip", [w, "generator"])
+        set_keys = sorted(k for k, v in w.items() if v not in (None, []))
+        if nk != "return" or not nv.get("equal"):
+            rep.violation("config-dropped:%s" % "+".join(set_keys), "a test case whose configuration sets only %s is written by the Markdown generator as %r and read back as %s"
+                          % (set_keys, nv.get("rendered") if isinstance(nv, dict) else nv, nv.get("parsed") if isinstance(nv, dict) else ""),
+                          {"kind": "eval", "fn": "one_liner_roundtrip", "args": [w, "generator"], "native": [nk, nv], "harness": h.name})
+        else:
+            rep.mismatches.append("%s: solver witness %s did not reproduce natively: %s" % (h.name, w, str(nv)[:200]))
+
+
 def replay_scalars(rep, h, res):
     from props.c16 import tcc_to_json
     for model, r in res.raw_witnesses[:4]:
@@ -345,6 +391,10 @@ def run(pid, tier):
         res = e2.run_with_raw(prog, h)
         replay(rep, h, res, kind)
         e2.record(rep, h, res)
+    he = h_is_empty()
+    rese = e2.run_with_raw(prog, he)
+    replay_is_empty(rep, he, rese)
+    e2.record(rep, he, rese)
     hs = h_scalars()
     ress = e2.run_with_raw(prog, hs)
     replay_scalars(rep, hs, ress)
